@@ -56,10 +56,16 @@ SharesList(c, i) ==
   \E j \in EIdx(c) \ {i} :
      LET q == PathOf(c, j) IN Len(q) >= k /\ IsNum(q[k]) /\ SubSeq(q, 1, k - 1) = SubSeq(p, 1, k - 1)
 
-(* trigger: the variable names a key two or more levels below a list element the file does not define *)
+(* trigger: the variable names a key two or more levels below a list element that the file does   *)
+(* not define, or that another variable addresses as well (the fragments of the variables are      *)
+(* merged with each other before the file is looked at: the one that arrives first for an element  *)
+(* keeps its literal dotted key)                                                                   *)
 NestedInNewElement(c, i) ==
   LET p == PathOf(c, i) IN
-  \E k \in IdxPositions(p) : KeyRun(p, k) >= 2 /\ ~InFile(c, SubSeq(p, 1, k))
+  \E k \in IdxPositions(p) :
+     /\ KeyRun(p, k) >= 2
+     /\ \/ ~InFile(c, SubSeq(p, 1, k))
+        \/ \E j \in EIdx(c) \ {i} : PathPrefix(SubSeq(p, 1, k), PathOf(c, j))
 
 (* trigger: the file alone lacks a property the schema requires *)
 ReqMissing(c) == \E r \in 1..Len(c.reqs) : InFile(c, c.reqs[r].scope) /\ ~InFile(c, c.reqs[r].need)
@@ -86,6 +92,7 @@ MergeReasons(c) ==
   IF c.obs.kind = "ok" THEN {Tag(c, i) : i \in Wrong(c)}
   ELSE IF c.obs.kind = "panic" THEN {"loader-panicked"}
   ELSE IF ~c.obs.schema /\ ReqMissing(c) THEN {"file-alone-fails-schema-required"}
+  ELSE IF c.obs.schema /\ \E i \in EIdx(c) : NestedInNewElement(c, i) THEN {"env-nested-key-in-new-element"}
   ELSE IF c.obs.schema /\ \E i \in EIdx(c) : SharesList(c, i) THEN {"env-vars-share-list"}
   ELSE {"load-rejected"}
 
